@@ -31,6 +31,8 @@ func runC10(c *Ctx) {
 	sharedEntryRule(c, "C10.R7", styleTables, "a style rule registered later for one element is applied to the others too")
 	R.Rule("C10.R10", "every matcher registered for the property is consulted (= C07.R4 merges, cited): in sanitizeStyles the style rules of the matching element patterns are merged by m[k] = append(m[k], rules...) — an assignment would let one pattern's matchers replace another's, and a declaration one of them accepts is dropped")
 	mergesAccumulate(c, "C10.R10", "(*Policy).sanitizeStyles")
+	R.Rule("C10.R12", "each declaration is kept at most once: on no path through one iteration of the declaration loop of sanitizeStyles are there two appends to the kept list (after a rule accepted the value the scan ends)")
+	declarationKeptOnce(c, "C10.R12", "the style attribute carries the declaration once per rule that accepts it")
 	R.Rule("C10.R11", "declarations are judged by the registered rules (= C13.R1, cited): no sanitising path writes into a policy's tables — merging pattern-scoped style rules into a map taken from the policy would let the rules of one pattern apply to elements matching only another, for the rest of the policy's life")
 	c13SharedWrites(c, "C10.R11", "style rules registered for one element pattern leak into the policy's table of another: declarations that are not allowlisted for an element are kept", true)
 	R.Rule("C10.R9", "the default handler is the last resort: css.GetDefaultHandler(property) is stored into a style rule only on paths where the builder's handler is nil, its enum empty and its regexp nil — next to a user-supplied matcher it would take precedence in sanitizeStyles")
